@@ -334,10 +334,11 @@ Definition prove_serves (v3 : bool) (g : gate) (legacy : list N) (k : N) : bool 
 Definition prove_serves_repaired (v3 : bool) (g : gate) (legacy : list N) (k : N) : bool := negb v3 && gate_serves g k.
 
 (* ---------------- switches for the correspondence ---------------- *)
-(* the unchanged code has both defects; flip a switch when /repo gets the corresponding fix, so that the
-   correspondence keeps comparing the code with the function it now implements *)
-Definition delta_source_checked : bool := false.
-Definition prove_counter_checked : bool := false.
+(* true: /repo has the fix (dda280b GetDelta authorises the source; 065d721 handleProveAttachment tests the
+   allow-list counter) and the correspondence compares the code with the repaired function; the functions of the
+   code as it was ([delta], [prove_serves]) stay, for the _refuted witnesses of C02_Refuted.v *)
+Definition delta_source_checked : bool := true.
+Definition prove_counter_checked : bool := true.
 
 Definition delta_impl := if delta_source_checked then delta_repaired else delta.
 Definition prove_impl := if prove_counter_checked then prove_serves_repaired else prove_serves.
